@@ -274,6 +274,18 @@ class Reader(BaseValidator):
         for _ in self.rows():
             pass
 
+    def close(self):
+        """
+        Same as :py:meth:`BaseValidator.close` but in case no rows have been
+        read yet, reset the checks first so the checks at the end judge this
+        (empty) run instead of the remains of an earlier run using the same
+        CID.
+        """
+        if not self._is_closed and self.accepted_rows_count is None:
+            for check in self.cid.check_map.values():
+                check.reset()
+        super().close()
+
 
 class Writer(BaseValidator):
     def __init__(self, cid_or_path, target):
